@@ -10,7 +10,7 @@ def run(chk, failed):
                 "1 ns, interval-1 s, interval s -1 ns, interval s, interval s +1 ns, interval+1 s, 30 s}, every module configuration of "
                 "the product threshold{1,2,3} x send-interval{0,60} x send-once x send-close walked by case index; refreshes inside open "
                 "incidents (the remembered notify times must survive every refresh that still lists the group), dropping and re-listing "
-                "groups; the C14 oracle (threshold, lists, interval and send-once within an incident / quiet period, every incident "
+                "groups; a small parallel batch of histories with a refresh whose storage request times out (real time) in mid-incident; the C14 oracle (threshold, lists, interval and send-once within an incident / quiet period, every incident "
                 "announced - computed from the history alone) is evaluated on every call log of the implementation; non-trivial = at "
                 "least two incidents of one (cluster, group); distinct by the case line")
     G.check_body(chk, failed, "C14", G.oracle_c14, ["clock", "clock", "clock", "groups"], 36000, 600000, CORR)
